@@ -6,9 +6,12 @@ WT=${WT:-/tmp/wt-vsy}
 HERE=$(cd "$(dirname "$0")" && pwd)
 [ -d "$WT" ] || git -C /repo worktree add --detach "$WT" HEAD >/dev/null 2>&1
 names=("$@")
-[ ${#names[@]} -eq 0 ] && names=(log-share-debug dkgstatus-share secure-file-0644 publickey-returns-private share-file-not-secure log-dkg-config)
+[ ${#names[@]} -eq 0 ] && names=(log-share-debug dkgstatus-share secure-file-0644 publickey-returns-private share-file-not-secure log-dkg-config revert-fix-F11)
 for n in "${names[@]}"; do
-  git -C "$WT" checkout -q . && git -C "$WT" apply "$HERE/$n.diff" || { echo "MUT $n: patch does not apply"; continue; }
+  git -C "$WT" checkout -q .
+  # baseline = the tree with F11 repaired (fix-F11.diff, until the worktree's HEAD contains it)
+  grep -q "BoltStoreOpenPerm = 0600" "$WT/internal/dkg/store.go" || git -C "$WT" apply "$HERE/fix-F11.diff"
+  git -C "$WT" apply "$HERE/$n.diff" || { echo "MUT $n: patch does not apply"; continue; }
   (cd /verif && VERIF_REPO=$WT timeout 1500 python3 tools/check.py C15 --tier quick > "/verif/.work/vsy-mut-$n.log" 2>&1; echo "MUT $n: exit $?"; grep -h "^VIOLATION\|^  what\|^KNOWN\|^INCONCLUSIVE" "/verif/.work/vsy-mut-$n.log" | cut -c1-260)
   git -C "$WT" checkout -q .
 done
